@@ -104,6 +104,60 @@ def addresses_canonical(ctx, rule):
     return n
 
 
+MUTATORS = ('remove', 'pop', 'clear', 'append', 'extend', 'insert', 'sort',
+            'reverse', 'update', 'add', 'discard', 'popitem', 'setdefault',
+            '__setitem__', '__delitem__')
+
+
+def config_not_mutated(ctx, rule):
+    """The verdict is a function of the URL and the operator's policy.
+    oslo.config hands out the *same* list object for a ListOpt on every
+    access, so a function of the egress module that removes / appends /
+    reorders entries of `CONF.action_std_http.*` (directly or through a
+    local alias) changes the policy for every later request - and a removal
+    inside the loop over that list also skips the entry after the removed
+    one on this very call."""
+    prog = ctx.prog
+    n = 0
+    for q, f in sorted(prog.funcs.items()):
+        if f.module != EG:
+            continue
+        aliases = set()
+        for x in own_nodes(f.node):
+            if isinstance(x, ast.Assign) and len(x.targets) == 1 and \
+                    isinstance(x.targets[0], ast.Name) and \
+                    (dotted(x.value) or '').startswith('CONF.'):
+                aliases.add(x.targets[0].id)
+
+        def is_conf(e):
+            d = dotted(e) or ''
+            return d.startswith('CONF.') or d.split('.')[0] in aliases
+        for x in own_nodes(f.node):
+            bad = None
+            if isinstance(x, ast.Call) and isinstance(x.func, ast.Attribute) \
+                    and x.func.attr in MUTATORS and is_conf(x.func.value):
+                bad = x
+            if isinstance(x, ast.Delete) and any(
+                    isinstance(t, ast.Subscript) and is_conf(t.value)
+                    for t in x.targets):
+                bad = x
+            if isinstance(x, (ast.Assign, ast.AugAssign)):
+                tg = x.targets if isinstance(x, ast.Assign) else [x.target]
+                if any(isinstance(t, ast.Subscript) and is_conf(t.value)
+                       for t in tg) or (isinstance(x, ast.AugAssign) and
+                                        is_conf(x.target)):
+                    bad = x
+            n += 1 if bad is None else 0
+            if bad is not None:
+                rule.fail(ctx.construct(f, bad),
+                          'the configured egress policy is modified in place '
+                          '(%s): later requests are judged by a different '
+                          'list than the operator wrote' % norm(bad),
+                          ctx.loc(f, bad))
+    rule.ok(EG + ' :: configuration is only read', 'no in-place change of '
+            'CONF.action_std_http.* in %d statements' % n)
+
+
 def run(ctx):
     prog, sd = ctx.prog, ctx.sd
 
@@ -174,6 +228,7 @@ def run(ctx):
                   'x every denied network, no early exit', 'GD')
     v = prog.func(EG + '.validate_url')
     cfg = ctx.cfg(v)
+    config_not_mutated(ctx, r2)
     raises = [x for x in cfg.nodes if x.kind == 'stmt' and
               isinstance(x.ast, ast.Raise)]
     gai = U.calls_in(cfg, 'getaddrinfo')
